@@ -338,6 +338,24 @@ pub fn gen_c02(rng: &mut Rng) -> ConnCase {
         if r.ver == (1, 0) {
             r.hdrs.push(("Connection".into(), "keep-alive".into()));
         }
+        // framing headers are ordinary members of the header list too: Content-Length alone,
+        // Transfer-Encoding alone, and both together (the body is not looked at by the handler)
+        if rng.chance(1, 4) {
+            let fr = match rng.below(4) {
+                0 => Framing::Len,
+                1 => Framing::Chunked,
+                _ => Framing::Both,
+            };
+            let n = *rng.pick(&[0usize, 3, 700, 3000]);
+            set_body(rng, &mut r, fr, n);
+            if rng.chance(1, 2) {
+                // not only at the end of the list
+                let k = r.hdrs.len();
+                let at = rng.below(k);
+                let h = r.hdrs.remove(k - 1);
+                r.hdrs.insert(at, h);
+            }
+        }
         r.last = false;
         reqs.push(r);
         script.push(simple_action(i, rng));
@@ -545,9 +563,11 @@ pub fn gen_c12(rng: &mut Rng) -> ConnCase {
         if i == closing_at {
             // choose a header that ends the connection for this version
             if r.ver == (1, 1) {
-                let v = *rng.pick(&["close", "Close", "CLOSE", "foo, close", "upgrade", "enclosed"]);
+                // single tokens and token lists; `close` / `upgrade` win over a `keep-alive` in the same list
+                let v = *rng.pick(&["close", "Close", "CLOSE", "foo, close", "upgrade", "enclosed", "keep-alive, close", "Close, Keep-Alive",
+                                    "keep-alive, Upgrade", "Upgrade, keep-alive", "TE, close, keep-alive"]);
                 r.hdrs.push((crate::recase(rng, "Connection"), v.into()));
-                if v == "upgrade" {
+                if v.to_ascii_lowercase().contains("upgrade") {
                     r.upgrade = true;
                 }
             } else {
